@@ -13,7 +13,9 @@ import (
 	"sort"
 	"strconv"
 	"strings"
+	"sync/atomic"
 	"time"
+	"unsafe"
 )
 
 type Violation struct {
@@ -39,6 +41,7 @@ type RunResult struct {
 	Nontrivial bool
 	QStates    int
 	Sample     any
+	Trace      []string
 	// Skipped: the spec was outside what this property judges (e.g. a side failed in C01).
 	Skipped bool
 }
@@ -145,18 +148,24 @@ func Minimise(h Harness, spec any, v *Violation, maxRuns int) (any, *Violation, 
 // StartWatchdog exits the process with status 2 when the scheduler makes no
 // step for the given real time (a frozen bubble is a harness problem, never a
 // verdict).
-var wdStep func() int64
-
 func StartWatchdog(limit time.Duration) {
 	go func() {
+		var lastF uintptr
+		last := int64(-1)
+		since := time.Now()
 		for {
 			time.Sleep(2 * time.Second)
-			f := wdStep
-			if f == nil {
+			sc := watched.Load()
+			if sc == nil {
+				last, since = -1, time.Now()
 				continue
 			}
-			last := f()
-			if last != 0 && time.Since(time.Unix(0, last)) > limit {
+			cur := sc.StepCounter()
+			if cur != last || uintptr(unsafe.Pointer(sc)) != lastF {
+				last, lastF, since = cur, uintptr(unsafe.Pointer(sc)), time.Now()
+				continue
+			}
+			if time.Since(since) > limit {
 				buf := make([]byte, 1<<20)
 				n := runtime.Stack(buf, true)
 				fmt.Fprintf(os.Stderr, "VERIF-WATCHDOG: no scheduler step for %v\n%s\n", limit, buf[:n])
@@ -166,14 +175,10 @@ func StartWatchdog(limit time.Duration) {
 	}()
 }
 
+var watched atomic.Pointer[Sched]
+
 // Watch registers the scheduler whose progress the watchdog observes.
-func Watch(s *Sched) {
-	if s == nil {
-		wdStep = nil
-		return
-	}
-	wdStep = s.LastStepWall
-}
+func Watch(s *Sched) { watched.Store(s) }
 
 // WorkerMain runs the harness as directed by the environment. It returns the
 // process exit code (0 ok, 2 infrastructure trouble).
@@ -231,6 +236,10 @@ func WorkerMain(h Harness, e WorkerEnv) int {
 			out.Hashes = append(out.Hashes, fmt.Sprintf("%d:%016x:%d:%d", idx, a.LogHash, a.Steps, len(a.Violations)))
 			if a.LogHash != b.LogHash || a.Steps != b.Steps || len(a.Violations) != len(b.Violations) {
 				out.Note += fmt.Sprintf("NONDETERMINISTIC idx=%d %016x/%d vs %016x/%d; ", idx, a.LogHash, a.Steps, b.LogHash, b.Steps)
+				if d := os.Getenv("VERIF_DUMP"); d != "" {
+					os.WriteFile(fmt.Sprintf("%s/nd-%d-a.log", d, idx), []byte(strings.Join(a.Trace, "\n")), 0o644)
+					os.WriteFile(fmt.Sprintf("%s/nd-%d-b.log", d, idx), []byte(strings.Join(b.Trace, "\n")), 0o644)
+				}
 			}
 		}
 	default:
@@ -281,7 +290,11 @@ func WorkerMain(h Harness, e WorkerEnv) int {
 				// the minimised spec must reproduce on a second execution
 				again := h.Run(mspec)
 				if nv := findViolation(again, mv); nv == nil || nv.LogHash != mv.LogHash {
-					out.Note += fmt.Sprintf("UNSTABLE minimised replay for %s; ", key)
+					var got []string
+					for _, x := range again.Violations {
+						got = append(got, x.Class+"|"+x.Signature+"|"+x.LogHash)
+					}
+					out.Note += fmt.Sprintf("UNSTABLE minimised replay for %s (hash %s): second execution gave %v spec=%s; ", key, mv.LogHash, got, raw)
 				}
 				seen[key] = mv
 				out.Violations = append(out.Violations, mv)
